@@ -5,12 +5,15 @@ from pipeline import *
 
 TV = ["T", "F", "N"]
 VAL = {"T": 1, "F": 0, "N": None}
-PLACES = ["select", "having", "update", "delete", "select", "join", "case", "conflict"]
+# places that take a history of calls (join and case take one condition per statement)
+HIST_PLACES = ["select", "having", "update", "delete", "select", "having_plain", "update_from2", "conflict", "conflict_target", "select_take", "having_take"]
+PLACES = ["select", "having", "update", "delete", "select", "join", "case", "conflict", "having_plain", "update_from2", "conflict_target", "select_take", "having_take"]
 
 def mk_conn():
     conn = sqlite3.connect(":memory:")
     conn.execute('CREATE TABLE t (id INTEGER PRIMARY KEY, p, q, r, x)')
     conn.execute('CREATE TABLE u (z)'); conn.execute('INSERT INTO u VALUES (1)')
+    conn.execute('CREATE TABLE v (w)'); conn.execute('INSERT INTO v VALUES (1)')
     n = 0
     for a in TV:
         for b in TV:
@@ -23,12 +26,12 @@ def mk_conn():
 def engine_truth(conn, stmt, sql):
     """ids (1..27) for which the engine treats the predicate as TRUE"""
     try:
-        if stmt in ("select", "having", "join"):
+        if stmt in ("select", "having", "join", "select_take", "having_take"):
             return ("ok", sorted(r[0] for r in conn.execute(sql).fetchall()))
         if stmt == "case":
             rows = conn.execute(sql + " ORDER BY id" if " ORDER BY" not in sql else sql).fetchall()
             return ("ok", [i + 1 for i, r in enumerate(rows) if r[0] == 1])
-        if stmt == "update":
+        if stmt in ("update", "update_from2"):
             conn.execute(sql)
             ids = sorted(r[0] for r in conn.execute("SELECT id FROM t WHERE x = 1").fetchall())
             conn.rollback(); return ("ok", ids)
@@ -55,13 +58,19 @@ def rand_cond(rng, depth):
         if x < 0.1: ms.append({"k": "null"})
         elif x < 0.55 or depth == 0: ms.append(rng.choice(ATOMS))
         else: ms.append(rand_cond(rng, depth - 1))
-    return {"k": "cond", "t": rng.choice(["any", "all"]), "neg": rng.random() < 0.35, "ms": ms}
+    c = {"k": "cond", "t": rng.choice(["any", "all"]), "neg": rng.random() < 0.35, "ms": ms}
+    if rng.random() < 0.25:
+        # not() called two or three times on the same condition
+        c["nn"] = rng.choice([2, 3]); c["neg"] = c["nn"] % 2 == 1
+    return c
 
-def to_calls(given, rng):
+def to_calls(given, rng, place=""):
     calls = []
     for x in given:
         if x["k"] == "cond":
             calls.append({"op": "cond_where", "c": x})
+        elif place.startswith("conflict") and rng.random() < 0.34:
+            calls.append({"op": "and_where_option", "e": x})
         elif rng.random() < 0.5:
             calls.append({"op": "and_where", "e": x})
         else:
@@ -94,14 +103,17 @@ def run(tier, replay_path=None):
         else:
             h_hist = [h for h in h_hist if len(h) <= 2] + sample([h for h in h_hist if len(h) > 2], 40000, rng)
         for k, h in enumerate(h_hist):
-            cases.append({"id": len(cases), "stmt": PLACES[k % 5], "calls": to_calls(h, rng)})
+            pl = HIST_PLACES[k % len(HIST_PLACES)]
+            cases.append({"id": len(cases), "stmt": pl, "calls": to_calls(h, rng, pl)})
         for k, h in enumerate(h_single):
-            cases.append({"id": len(cases), "stmt": PLACES[k % len(PLACES)], "calls": to_calls(h, rng)})
+            pl = PLACES[k % len(PLACES)]
+            cases.append({"id": len(cases), "stmt": pl, "calls": to_calls(h, rng, pl)})
         # random deeper / wider trees and longer histories
         for k in range(600 if tier == "quick" else 12000):
             n = rng.randint(1, 5)
             given = [rand_cond(rng, rng.randint(0, 3)) if rng.random() < 0.7 else rng.choice(ATOMS) for _ in range(n)]
-            cases.append({"id": len(cases), "stmt": PLACES[k % len(PLACES)], "calls": to_calls(given, rng)})
+            pl = PLACES[k % len(PLACES)]
+            cases.append({"id": len(cases), "stmt": pl, "calls": to_calls(given, rng, pl)})
     if not replay_path:
         import copy, exprmeth
         cases = [exprmeth.annotate(copy.deepcopy(c), rng, 0.7) for c in cases]
